@@ -7,6 +7,7 @@
 -/
 import BklProofs.Lemmas.Interp
 import BklProofs.Lemmas.C14Codec
+import BklProofs.Lemmas.C13Environ
 namespace Bkl
 
 /-! ## the scanner -/
@@ -509,5 +510,119 @@ theorem C13_nested_self_reference (fuel : Nat) :
       show interpSegs "{a}".toList = [.ref "a".toList] from by decide]
     simp only [interpSpec, List.mapM_cons, List.mapM_nil, interpSeg, hg, ih]
     rfl
+
+/-! ## the environment: `envOfEnviron` (evalcontext.go:envVars)
+
+  `envOfEnviron : List String → Vars` (BklProofs/Lemmas/C13Environ.lean) builds the `$env:` variables
+  from `os.Environ()`: each entry is split at its FIRST `=` (`strings.SplitN(s, "=", 2)`,
+  `wa_envEntry`), the value is stored as a string under `"$env:" ++ name`, later entries
+  overwrite earlier ones (Go map assignment).  An entry without `=` makes Go's `kv[1]` panic;
+  the model skips it. -/
+
+/-- **C13_env_value_keeps_equals** — the entry `name=value` (no `=` in `name`) binds
+    `$env:name` to EXACTLY `value`, as a string, for every `value`: further `=` signs stay in
+    the value (split at the first `=` only), the empty value is the empty string, and a value
+    that looks like a number, a directive or an interpolation is still that string — `$env:name`
+    evaluates (`process2String`, any fuel, any document) to `.str value`, never anything else. -/
+theorem C13_env_value_keeps_equals (name value : String) (hn : '=' ∉ name.toList) :
+    wa_envEntry (name ++ "=" ++ value) = some (name, value) ∧
+    getVar (envOfEnviron [name ++ "=" ++ value]) ("$env:" ++ name) = .ok (.str value) ∧
+    ∀ (fuel : Nat) (docs : List Val) (root : Val),
+      process2String fuel docs root (envOfEnviron [name ++ "=" ++ value]) ("$env:" ++ name) =
+        .ok (.str value) := by
+  have h := wa_fget_envOfEnviron_last [] [] name value hn (fun _ h => nomatch h)
+  rw [List.nil_append] at h
+  refine ⟨wa_envEntry_mk name value hn, ?_, fun fuel docs root => C13_env_bound fuel docs root _ name _ h⟩
+  simp [getVar, h, pure, Except.pure]
+
+/-- non-vacuity: a value with two more `=`, the empty value, a number, a directive look-alike -/
+example : getVar (envOfEnviron ["K=a=b=c"]) "$env:K" = .ok (.str "a=b=c") ∧
+    getVar (envOfEnviron ["K="]) "$env:K" = .ok (.str "") ∧
+    getVar (envOfEnviron ["K=123"]) "$env:K" = .ok (.str "123") ∧
+    getVar (envOfEnviron ["K=$env:K"]) "$env:K" = .ok (.str "$env:K") ∧
+    getVar (envOfEnviron ["K==="]) "$env:K" = .ok (.str "==") :=
+  ⟨(C13_env_value_keeps_equals "K" "a=b=c" (by decide)).2.1,
+   (C13_env_value_keeps_equals "K" "" (by decide)).2.1,
+   (C13_env_value_keeps_equals "K" "123" (by decide)).2.1,
+   (C13_env_value_keeps_equals "K" "$env:K" (by decide)).2.1,
+   (C13_env_value_keeps_equals "K" "==" (by decide)).2.1⟩
+
+/-- In a whole environment the LAST entry for a name wins (Go: `vars[k] = v` in `os.Environ()`
+    order), again with its value verbatim; the environment is well formed (`envWF`: every
+    `$env:` variable is a string) and a key-sorted map. -/
+theorem C13_env_last_wins (pre post : List String) (name value : String)
+    (hn : '=' ∉ name.toList) (hpost : ∀ e ∈ post, wa_envName e ≠ some name) :
+    getVar (envOfEnviron (pre ++ (name ++ "=" ++ value) :: post)) ("$env:" ++ name) =
+      .ok (.str value) ∧
+    envWF (envOfEnviron (pre ++ (name ++ "=" ++ value) :: post)) ∧
+    Fields.SortedKeys (envOfEnviron (pre ++ (name ++ "=" ++ value) :: post)) := by
+  refine ⟨?_, wa_envOfEnviron_envWF _, wa_envOfEnviron_sorted _⟩
+  simp [getVar, wa_fget_envOfEnviron_last pre post name value hn hpost, pure, Except.pure]
+
+example : getVar (envOfEnviron ["K=old", "J=x=y", "K=new=1", "noequals"]) "$env:K" =
+    .ok (.str "new=1") := by
+  have h := (C13_env_last_wins ["K=old", "J=x=y"] ["noequals"] "K" "new=1" (by decide) (by
+    intro e he
+    have : e = "noequals" := by simpa using he
+    subst this; decide)).1
+  exact h
+
+/-- **C13_env_unset_is_error** — a name that is not the part before the first `=` of any entry
+    of the environment (`wa_envName e ≠ some name` for every entry `e`; this is an iff) is
+    unbound, so
+    * `$env:name` is the `variableNotFound` error (`C13_env_unbound`), whatever the fuel;
+    * as a reference inside an interpolated string, `{$env:name}` — which the document itself
+      does not resolve (`get … = .error e₀`) — is `variableNotFound` (or `unmodelled`, when the
+      reference string is outside the modelled YAML sub-language), and makes the whole string
+      an error: never an empty substitution. -/
+theorem C13_env_unset_is_error (environ : List String) (name : String) :
+    (fget (envOfEnviron environ) ("$env:" ++ name) = none ↔
+      ∀ e ∈ environ, wa_envName e ≠ some name) ∧
+    ((∀ e ∈ environ, wa_envName e ≠ some name) →
+      (∀ (fuel : Nat) (docs : List Val) (root : Val),
+        process2String fuel docs root (envOfEnviron environ) ("$env:" ++ name) =
+          .error .variableNotFound) ∧
+      (∀ (docs : List Val) (root : Val) (e₀ : Err),
+        get root docs (.str ("$env:" ++ name)) = .error e₀ →
+          (e₀ ≠ .unmodelled → getWithVar root docs (envOfEnviron environ) ("$env:" ++ name) =
+            .error .variableNotFound) ∧
+          (∃ e₁, getWithVar root docs (envOfEnviron environ) ("$env:" ++ name) = .error e₁) ∧
+          ∀ (fuel : Nat) (s : String) (body : List Char), interpBody s = some body →
+            Seg.ref ("$env:" ++ name).toList ∈ interpSegs body →
+            ∃ e', process2String (fuel + 1) docs root (envOfEnviron environ) s = .error e')) := by
+  refine ⟨wa_fget_envOfEnviron_none_iff environ name, ?_⟩
+  intro hun
+  have hnone := (wa_fget_envOfEnviron_none_iff environ name).2 hun
+  refine ⟨fun fuel docs root => C13_env_unbound fuel docs root _ name hnone, ?_⟩
+  intro docs root e₀ hg
+  have hvar : getVar (envOfEnviron environ) ("$env:" ++ name) = .error .variableNotFound := by
+    simp [getVar, hnone]; rfl
+  have h1 : e₀ ≠ .unmodelled → getWithVar root docs (envOfEnviron environ) ("$env:" ++ name) =
+      .error .variableNotFound := by
+    intro hu
+    unfold getWithVar
+    rw [hg]
+    cases e₀ <;> first | exact hvar | exact absurd rfl hu
+  have h2 : ∃ e₁, getWithVar root docs (envOfEnviron environ) ("$env:" ++ name) = .error e₁ := by
+    by_cases hu : e₀ = .unmodelled
+    · subst hu
+      exact ⟨.unmodelled, by unfold getWithVar; rw [hg]; rfl⟩
+    · exact ⟨_, h1 hu⟩
+  refine ⟨h1, h2, ?_⟩
+  intro fuel s body hb hr
+  obtain ⟨e₁, he₁⟩ := h2
+  exact C13_missing_is_error fuel docs root _ s body hb _ e₁ hr
+    (by rw [String.ofList_toList]; exact he₁)
+
+/-- non-vacuity: `HOME` is not defined by `PATH=/bin`, `HOMER=x`, `XHOME=y`, `=HOME` or by the
+    `=`-less entry `HOME`; the document `{}` does not resolve `$env:HOME` either; `$"{$env:HOME}"`
+    scans to that one reference -/
+example : (∀ e ∈ ["PATH=/bin", "HOMER=x", "XHOME=y", "=HOME", "HOME"], wa_envName e ≠ some "HOME") ∧
+    get (.map []) [] (.str ("$env:" ++ "HOME")) = .error .refNotFound ∧
+    interpBody "$\"{$env:HOME}\"" = some "{$env:HOME}".toList ∧
+    Seg.ref ("$env:" ++ "HOME").toList ∈ interpSegs "{$env:HOME}".toList := by
+  refine ⟨by decide, ?_, by decide, by decide⟩
+  rw [show "$env:" ++ "HOME" = "$env:HOME" by decide]
+  exact wa_get_envHOME
 
 end Bkl
